@@ -55,7 +55,7 @@ class ChildModel:
 HANG = "HANG"
 
 
-def stop_model(child, actions, t, deadline_abs, reaped, kill_fail=None):
+def stop_model(child, actions, t, deadline_abs, reaped, kill_fail=None, intr=None):
     """Reference model of reproc_stop. Returns (ret, t_end, signals, now_reaped).
     signals: list of (time, sig, optional) - optional=True when the child was an unreaped
     zombie at that moment (sending or not sending are both accepted)."""
@@ -88,6 +88,13 @@ def stop_model(child, actions, t, deadline_abs, reaped, kill_fail=None):
         if to == DEADLINE:
             eff = INFINITE if deadline_abs is None else max(0, deadline_abs - t)
         e = child.end()
+        if intr is not None:
+            # a signal interrupts the first wait of the request intr ms into it, unless the child
+            # ends or the wait expires first: the request fails with EINTR there and then
+            d, intr = intr, None
+            ends_first = e is not None and e[0] <= t + d
+            if not ends_first and eff != 0 and (eff == INFINITE or d < eff):
+                return -4, t + d, signals, reaped
         if e is not None and (eff == INFINITE or e[0] <= t + eff):
             t = max(t, e[0])
             return e[1], t, signals, e[1]
@@ -186,8 +193,17 @@ def gen_c01(tier, seed):
             ops = [o for o in ops if o[0] not in "TKS"]
             ops.append("W 0 -1")
             ops.append("W 0 0")
-        script = "%sN 0 ; S 0 %s dl=%d stop=3:-1:0:0:0:0 ; %s%s ; D 0" % (
-            fault, child_tokens(m), dl, child_event(m), " ; ".join(ops))
+        daemon = ""
+        if i >= 300 and i % 11 == 5:
+            # daemon-style child: drops every inherited descriptor above 2 (the exit handle too) and
+            # keeps running - the exit handle reads "closed" while the child is not waitable yet
+            m["drops_fds_at"] = r.choice([3, 15, 35])
+            daemon = "E 0 %d C 99 ; " % m["drops_fds_at"]
+            ops.insert(r.randrange(len(ops) + 1), "Z %d" % (m["drops_fds_at"] + 2))
+            ops.append("W 0 %d" % r.choice([0, 0, 20]))
+        script = "%sN 0 ; S 0 %s dl=%d stop=3:-1:0:0:0:0 ; %s%s%s ; D 0" % (
+            fault, child_tokens(m), dl, daemon if m.get("exit_at") is None or m.get("drops_fds_at", 999) < m["exit_at"] else "",
+            child_event(m), " ; ".join(ops))
         sig = "c01/%s/%s/%s" % (kind, m.get("exit_code", m.get("raise_sig", "-")) if i < 300 else "r",
                                  "".join(o.split()[0][0] + o.split()[-1][-1] for o in ops))
         cases.append(Case("c01-%d" % i, script, m, sig))
@@ -244,6 +260,9 @@ def gen_c07(tier, seed):
         if state == "running" and (m["exit_at"] is None or m["exit_at"] > sleep) and r.random() < 0.05:
             m["kill_fail"] = (r.randrange(2), 1)  # k-th kill() fails with EPERM
         fault = ("F 0 kill %d 1 ; " % m["kill_fail"][0]) if "kill_fail" in m else ""
+        if state == "running" and "kill_fail" not in m and r.random() < 0.08:
+            m["intr"] = r.choice([5, 15, 35])
+            fault = "F 0 poll 0 %d ; " % (40000 + m["intr"])
         script = "%sN 0 ; S 0 %s dl=%d stop=3:-1:0:0:0:0 ; %s%s%sST 0 %s ; D 0" % (
             fault, child_tokens(m), dl, child_event(m), " ; ".join(pre), " ; " if pre else "", stop_args(acts))
         sig = "c07/%s/%s/%s/%s/%s/%s" % (fmt_stop(acts), m["exit_at"], m["term"], m["skill"], dl, state)
@@ -411,6 +430,8 @@ def judge_c01(case, log):
             obs["waits_after_end"] = obs.get("waits_after_end", 0) + 1
             vs.append(Violation("C01", "C01/life/status-lost:timeout-although-ended",
                                 "wait returned ETIMEDOUT although the child ended at vt=%d (before the call at %d)" % (end["vt"], op["t0"])))
+    if case.meta.get("drops_fds_at") is not None:
+        obs["exit_handle_dropped_cases"] = 1
     if case.meta.get("fault"):
         obs["fault_cases"] = 1
         fired = [f for f in (log.fin.get("faults") or []) if f[4]]
@@ -468,7 +489,10 @@ def replay_model(case, log, vs, prop):
             continue
         t0 = op["t0"]
         exp_ret, exp_t, exp_sigs, new_reaped = stop_model(child, acts, t0, deadline_abs, reaped,
-                                                          m.get("kill_fail") if name == "ST" else None)
+                                                          m.get("kill_fail") if name == "ST" else None,
+                                                          m.get("intr") if name == "ST" else None)
+        if name == "ST" and m.get("intr") is not None:
+            obs["interrupted_stops"] = obs.get("interrupted_stops", 0) + (1 if exp_ret == -4 else 0)
         obs["stops_checked"] += 1
         key_ctx = "%s" % ("stop" if name == "ST" else "destroy")
         got_sigs = lib_signals(op)
